@@ -102,7 +102,7 @@ def check(run, F, tier):
     res = conn.paths(F, f["path"])
     interned = res["interned"]
     problems = {}
-    n_inv = n_reg = n_look = n_bind = n_found = 0
+    n_inv = n_reg = n_look = n_bind = n_found = n_skip = 0
     for p in res["paths"]:
         if p.kind != "return":
             continue
@@ -138,6 +138,11 @@ def check(run, F, tier):
         # a PUBLISH that carries topic + alias binds the alias whether or not it is delivered (the sender regards it
         # as bound once sent): every accepted non-empty-topic path looks for the alias property, and registers it when found
         err = any(x.startswith("NotifyError") for x in w)
+        if not emp and not err:
+            # every accepted PUBLISH goes through the alias step (lookup or binding): a path that skips it - for a duplicate,
+            # a QoS level, a configuration - leaves the receive table behind the sender's
+            n_skip += 1
+            problems.setdefault("accepted PUBLISH path never examines the topic name: Topic Alias lookup / binding skipped", p)
         if emp and emp[0] is False and not err:
             n_bind += 1
             win = None
